@@ -3,7 +3,7 @@
 From Coq Require Import List ZArith Bool Lia Permutation.
 From SVC Require Import Base.AMap Base.Res Base.Dec Model.Types Model.Pricing
   Model.Handlers Model.EndBlock Model.Step Proofs.Inv Proofs.Lemmas Proofs.ReqLemmas
-  Proofs.DecProofs Proofs.PricingProofs.
+  Proofs.DecProofs Proofs.PricingProofs Proofs.CtxOps.
 Import ListNotations.
 Open Scope Z_scope.
 
@@ -64,8 +64,12 @@ Proof.
   - unfold h_start, authorized in H. inv_ok H.
     match type of H with (if ?b then _ else _) = _ => destruct b end; inv_ok H; subst; repeat split.
   - unfold h_kill, authorized in H. inv_ok H. subst. repeat split.
-  - unfold h_update_ctx, authorized in H. inv_ok H. subst. repeat split.
+  - unfold h_update_ctx, update_ctx_tail, authorized in H. inv_ok H. subst. repeat split.
   - unfold h_transfer in H. inv_ok H. apply transfer_escrow_other in H; try discriminate. exact H.
+  - mod_shape H; repeat split.
+  - mod_shape H; repeat split.
+  - mod_shape H; repeat split.
+  - mod_shape H; repeat split.
 Qed.
 
 (* ---- respond ---- *)
